@@ -35,6 +35,7 @@ def handle (line : String) : String :=
     | "toc" :: rest => Timeout.tocLine rest obs
     | "tlsch" :: rest => TlsInfo.driverLine rest obs
     | "snie" :: rest => Sni.e2eLine rest obs
+    | "autocmp" :: rest => Sniff.autocmpLine rest obs
     | "wire" :: rest => Wire.driverLine rest obs
     | "st" :: rest => Streams.driverLine rest obs
     | "pool" :: rest => Pool.driverLine rest obs
